@@ -88,7 +88,7 @@ ResolveOf(k, n) == {Facts[i] : i \in {j \in ResolveIdx : Facts[j].kind = k /\ Fa
 (* ---- the property, one invariant per clause; each speaks about the current fact ---- *)
 \* well-formed facts (a harness defect, not a verdict, if this fails)
 WellFormed ==
-  /\ F.fact \in {"plugin", "filter", "validate", "registry", "resolve", "group", "enable_required", "validate_filtered"}
+  /\ F.fact \in {"plugin", "filter", "validate", "registry", "resolve", "group", "enable_required", "enable_required_set", "validate_filtered"}
   /\ F.fact = "plugin" => F.req \in Caps /\ F.kind \in Kinds
   /\ F.fact \in {"filter", "validate", "validate_filtered"} => F.cap \in Caps
 
@@ -141,6 +141,14 @@ RequiredEnabled ==
        /\ Range(F.fs) \subseteq Names("fs") /\ Range(F.standalone) \subseteq Names("standalone")
   /\ (F.fact = "plugin" /\ F.kind = "detector") =>
        \A e \in Range(F.required) : \E x \in Extractors : x.name = e
+\* ... also when several detectors with different requirements are configured together (one EnableRequiredExtractors
+\* call has to enable all of them, each once)
+RequiredEnabledTogether ==
+  F.fact = "enable_required_set" =>
+     /\ F.ok
+     /\ \A id \in Range(F.ids) : Range(PluginById[id].required) \subseteq Range(F.fs) \cup Range(F.standalone)
+     /\ NoDup(F.fs) /\ NoDup(F.standalone)
+     /\ Range(F.fs) \subseteq Names("fs") /\ Range(F.standalone) \subseteq Names("standalone")
 \* ... and enabling it cannot break requirement validation: whatever environment admits the detector
 \* admits the extractors it requires
 RequiredAdmissible ==
@@ -160,6 +168,7 @@ Complete ==
     /\ Cardinality({Facts[i].cap : i \in Idx("validate_filtered")}) = Cardinality(Caps)
     /\ Cardinality(RegistryIdx) = 3
     /\ Cardinality(Idx("enable_required")) = Cardinality(Plugins("detector"))
+    /\ Idx("enable_required_set") # {}
     /\ Cardinality({Facts[i].id : i \in PluginIdx}) = Cardinality(PluginIdx)
 
 -----------------------------------------------------------------------------
@@ -168,6 +177,7 @@ Clauses == <<[n |-> "FilterExact", v |-> FilterExact], [n |-> "ValidateExact", v
              [n |-> "NamesUnique", v |-> NamesUnique], [n |-> "GroupNamesDistinct", v |-> GroupNamesDistinct],
              [n |-> "AdvertisedResolves", v |-> AdvertisedResolves], [n |-> "OwnNameReturnsPlugin", v |-> OwnNameReturnsPlugin],
              [n |-> "GroupExact", v |-> GroupExact], [n |-> "RequiredEnabled", v |-> RequiredEnabled],
+             [n |-> "RequiredEnabledTogether", v |-> RequiredEnabledTogether],
              [n |-> "RequiredAdmissible", v |-> RequiredAdmissible], [n |-> "FilteredValidates", v |-> FilteredValidates]>>
 Report == \A i \in DOMAIN Clauses :
             Clauses[i].v \/ PrintT(ToJson([clause |-> Clauses[i].n, n |-> l]))
